@@ -306,6 +306,19 @@ class Order:
                 return str(f()) if f else None
         return None
 
+    def variant_of(self, body, op, depth=0):
+        """enum variant name of an operand built by a fieldless aggregate (e.g. Ordering::Release)."""
+        if depth > 6 or op_place(op) is None:
+            return None
+        ds = body.defs().get(op_local(op), [])
+        if len(ds) == 1 and ds[0][0] == "assign":
+            rv = ds[0][3]
+            if rv["k"] == "agg" and rv.get("variant"):
+                return rv["variant"]
+            if rv["k"] in ("use", "cast") and rv["ops"]:
+                return self.variant_of(body, rv["ops"][0], depth + 1)
+        return None
+
     def guard_local_of(self, body, op, depth=0):
         """the guard-carrying local a `&*guard`-style operand derives from, else None."""
         if depth > 8:
@@ -362,15 +375,17 @@ class Order:
                     out.update(nm)
         return out
 
-    def slice_back(self, body, op, maxn=400):
-        """backward data-dependence slice of an operand: -> dict(calls=set of callee names,
-        params=set of param locals, consts=set of const names/values, locals=set)."""
+    def slice_back(self, body, op, maxn=600):
+        """backward data-dependence slice of an operand (field-sensitive through tuple/struct
+        aggregates and moves): -> dict(calls=callee names, params=param locals, consts=const
+        names/values, locals, fields=field names projected on the way)."""
         res = {"calls": set(), "params": set(), "consts": set(), "locals": set(), "fields": set()}
-        work = [op]
+        work = [(op, ())]
+        seen = set()
         n = 0
         while work and n < maxn:
             n += 1
-            o = work.pop()
+            o, pend = work.pop()
             k = o.get("k")
             if k is not None:
                 if k.get("name"):
@@ -380,35 +395,63 @@ class Order:
                 continue
             p = op_place(o)
             l = p["l"]
+            proj = tuple(_pkey(e) for e in p["p"]) + tuple(pend)
             for e in p["p"]:
                 if isinstance(e, list) and e[0] == "f":
                     res["fields"].add(e[2])
                 if isinstance(e, list) and e[0] == "i":
-                    work.append({"c": {"l": e[1], "p": []}})
-            if l in res["locals"]:
+                    work.append(({"c": {"l": e[1], "p": []}}, ()))
+            # leading field path (skipping derefs/downcasts) still to be resolved at the definition
+            fpath = tuple(e for e in proj if e != "*" and not (isinstance(e, tuple) and e[0] == "d"))
+            key = (l, fpath)
+            if key in seen:
                 continue
+            seen.add(key)
             res["locals"].add(l)
             if 1 <= l <= body.arg_count:
                 res["params"].add(l)
             for d in body.defs().get(l, []):
                 if d[0] == "assign":
                     rv = d[3]
-                    for oo in rv.get("ops", []):
-                        work.append(oo)
-                    if "place" in rv:
-                        work.append({"c": rv["place"]})
+                    kk = rv["k"]
+                    if kk == "agg" and fpath and isinstance(fpath[0], tuple) and fpath[0][0] == "f" \
+                            and not rv.get("closure") and fpath[0][1] < len(rv["ops"]):
+                        work.append((rv["ops"][fpath[0][1]], fpath[1:]))
+                    elif kk in ("use", "cast") and rv["ops"]:
+                        work.append((rv["ops"][0], fpath))
+                    elif kk in ("ref", "rawptr"):
+                        work.append(({"c": rv["place"]}, fpath))
+                    else:
+                        for oo in rv.get("ops", []):
+                            work.append((oo, ()))
+                        if "place" in rv:
+                            work.append(({"c": rv["place"]}, ()))
                 elif d[0] == "call":
                     t = d[2]
                     for nme in names(t):
                         res["calls"].add(nme)
                     for a in t["args"]:
-                        work.append(a)
+                        work.append((a, ()))
             # field-wise definitions (dest with projection) of the same local
             for b in body.reachable():
                 for st in body.blocks[b]["stmts"]:
                     if st[0] == "assign" and st[1]["l"] == l and st[1]["p"]:
+                        dp = tuple(_pkey(e) for e in st[1]["p"] if e != "*")
+                        dp = tuple(e for e in dp if not (isinstance(e, tuple) and e[0] == "d"))
+                        if fpath and dp and dp[0] != fpath[0]:
+                            continue
                         for oo in st[2].get("ops", []):
-                            work.append(oo)
+                            work.append((oo, ()))
                         if "place" in st[2]:
-                            work.append({"c": st[2]["place"]})
+                            work.append(({"c": st[2]["place"]}, ()))
         return res
+
+
+def _pkey(e):
+    if isinstance(e, list):
+        if e[0] == "f":
+            return ("f", e[1])
+        if e[0] == "d":
+            return ("d", e[1])
+        return (e[0],)
+    return e
